@@ -298,6 +298,14 @@ def inject(text, kind, k):
         return text + '\n#zz_a: /"q"/"a" <= #nosuchrule\n'
     if kind == 'unknown-pattern-constrained':
         return text + '\n#zz_a: /"q"/qq & {nosuchpattern: "a"}\n'
+    if kind == 'unknown-temp-pattern-constrained':
+        return text + '\n#zz_a: /"q"/qq & {_nosuch: "a"}\n'
+    if kind == 'unknown-temp-pattern-constrained-literal-name':
+        return text + '\n#zz_a: /"q"/"r" & {_nosuch: "a"}\n'
+    if kind == 'unknown-temp-pattern-next-to-known':
+        return text + '\n#zz_a: /"q"/_tt/qq & {_tt: "a", _tx: "b"}\n'
+    if kind == 'unknown-pattern-constrained-literal-name':
+        return text + '\n#zz_a: /"q"/"r" & {nosuchpattern: "a"}\n'
     if kind == 'unknown-pattern-option':
         return text + '\n#zz_a: /"q"/qq & {qq: nosuchpattern}\n'
     if kind == 'unknown-pattern-fn-arg':
@@ -309,7 +317,8 @@ def inject(text, kind, k):
     return None
 
 
-KINDS = ['undefined-rule', 'temporary-rule-ref', 'temporary-rule-signer', 'temporary-rule-among-signers',
+KINDS = ['unknown-temp-pattern-constrained', 'unknown-temp-pattern-constrained-literal-name',
+         'unknown-temp-pattern-next-to-known', 'unknown-pattern-constrained-literal-name', 'undefined-rule', 'temporary-rule-ref', 'temporary-rule-signer', 'temporary-rule-among-signers',
          'anonymous-temporary-rule-signer', 'cyclic-reference', 'self-reference', 'cyclic-signing', 'self-signing',
          'cyclic-signing-shared-key', 'cyclic-reference-in-redefinition', 'cyclic-reference-first-definition',
          'undefined-signer', 'unknown-pattern-constrained', 'unknown-pattern-option', 'unknown-pattern-fn-arg',
